@@ -113,6 +113,21 @@ PROPS["C19"] = {"theorems": [], "run": _run_eq, "replay": _replay_eq,
                         "to separate them, in both modes; a pair is non-trivial when an argument was changed"}
 
 
+def _run_render(pid: str, tier: str, seed: int, spec: dict, scale: float = 1.0, salt: str = "") -> dict:
+    from . import render_stream
+    return render_stream.run(pid, tier, seed, spec, scale, salt)
+
+
+PROPS["C12"] = {"theorems": ["C12_total", "C12_totalL", "C12_mirror_index", "C12_mirror_keys", "C12_mirror_union",
+                             "C12_mirror_set", "C12_mirror_preds", "C12_next_level", "C12_next_level_map",
+                             "C12_message_total"],
+                "run": _run_render,
+                "rule": "every Invalid produced by the scalar / collection / record / wrapper / mixed validator streams on "
+                        "their conforming, near-miss and hostile inputs is rendered by the real to_serializable_errs (default "
+                        "and marker next_level) and by the InvalidReturnError message; distinct = distinct canonical error "
+                        "trees; all counted cases are non-trivial (an actual error tree rendered twice)"}
+
+
 def run_core(pid: str, tier: str, seed: int, spec: dict, scale: float = 1.0, salt: str = "") -> dict:
     n = int((spec["quick_n"] if tier == "quick" else spec["thorough_n"]) * scale)
     opts = dict(spec.get("opts", {}))
